@@ -131,6 +131,7 @@ def main():
     ap.add_argument("--only")
     ap.add_argument("--jobs", type=int, default=int(os.environ.get("XSV_JOBS", "16")))
     ap.add_argument("--no-evidence", action="store_true")
+    ap.add_argument("--fail-fast", action="store_true", help="self-test mode: stop scheduling jobs after the first refuted one (never used by registered commands)")
     args = ap.parse_args()
     prop = args.prop.upper()
     tier = args.tier if args.tier in ("quick", "thorough") else "quick"
@@ -172,9 +173,23 @@ def main():
             futs[ex.submit(_run_worker, module, j, False)] = (j, False)
             if j.kind == "ch":
                 futs[ex.submit(_run_worker, module, j, True)] = (j, True)
+        stop = False
         for fut in cf.as_completed(futs):
+            if fut.cancelled():
+                continue
             j, twin = futs[fut]
             (twins if twin else results)[j.key] = fut.result()
+            if args.fail_fast and not twin and not stop and results[j.key].get("status") in ("REFUTED", "SAT"):
+                # used by the seeded-change self test: the first refuted job is enough, skip what has not started yet
+                stop = True
+                for other in futs:
+                    other.cancel()
+        if args.fail_fast:
+            done_keys = set(results)
+            jobs = [j for j in jobs if j.key in done_keys]
+            for j in jobs:
+                if j.kind == "ch" and j.key not in twins:
+                    twins[j.key] = {"status": "UNKNOWN", "messages": []}
 
     if mvf is not None:
         mv = mvf.result()
